@@ -474,14 +474,23 @@ theorem maybeEnableSketch_inv {P : Sketch → Prop} (L : SketchLaws P) {p : Para
     (hsm : SmallSketch p) {s : UState} (hi : Inv P p s) : Inv P p (maybeEnableSketch p s) := by
   unfold maybeEnableSketch
   split
-  · unfold enableSketch
+  · rename_i hen
+    have hoff : s.skOn = false := by
+      unfold shouldEnableSketch at hen
+      cases h : s.skOn with
+      | false => rfl
+      | true => simp [h] at hen
+    have hsk0 := hi.skOff hoff
+    unfold enableSketch
     cases hc : p.cap with
     | none => exact hi
     | some maxCap =>
       simp only
-      refine ⟨invU_of hi.inv (structP_congr hi.inv.struct rfl rfl rfl rfl rfl) rfl rfl rfl, ?_⟩
+      refine ⟨invU_of hi.inv (structP_congr hi.inv.struct rfl rfl rfl rfl rfl) rfl rfl rfl, ?_,
+        fun h => by simp at h⟩
       simp only
-      apply L.ensure _ _ hi.sk
+      rw [hsk0]
+      apply L.ensure
       split
       · exact hsm.cap maxCap hc
       · exact hsm.capF _ _ _
@@ -506,7 +515,8 @@ theorem handleInsert_inv {P : Sketch → Prop} (L : SketchLaws P) {p : Params}
   have hlen := AL.length_put_of_none entry hk
   have htw := totalW_put_none entry hk
   -- the common tail: nodes for the candidate, counters, sketch
-  have tail : ∀ (s3 : UState) (vwt : Nat), StructP p (some k) s3 → P s3.sk →
+  have tail : ∀ (s3 : UState) (vwt : Nat), StructP p (some k) s3 →
+      (s3.sk = s.sk ∧ s3.skOn = s.skOn) →
       s3.ec + 1 = s3.map.length → totalW s3.map + vwt = totalW s.map + p.weigh k v →
       s3.ws = s.ws → AL.get? s3.map k = some entry →
       (∀ k' e', AL.get? s3.map k' = some e' → e'.weight = p.weigh k' e'.val) →
@@ -516,7 +526,7 @@ theorem handleInsert_inv {P : Sketch → Prop} (L : SketchLaws P) {p : Params}
          let s6 := { s5 with ws := s5.ws - vwt }
          { s6 with ws := s6.ws + p.weigh k v })) := by
     intro s3 vwt hs3 hsk3 hc3 hw3 hws3 hk3 hwt3
-    obtain ⟨entry', hk', e', hv', hw', hmap, hst, hec, hws, hsk, _, _, _⟩ :=
+    obtain ⟨entry', hk', e', hv', hw', hmap, hst, hec, hws, hsk, hon, _, _⟩ :=
       pushCandidate_spec (p.hash k) ts hs3
     rw [hk3] at hk'; cases hk'
     apply maybeEnableSketch_inv L hsm
@@ -524,7 +534,9 @@ theorem handleInsert_inv {P : Sketch → Prop} (L : SketchLaws P) {p : Params}
     have htw4 := totalW_put_some e' hk3
     have hge : p.weigh k v ≤ totalW s3.map := by
       have := weight_le_totalW hk3; omega
-    refine ⟨⟨structP_congr hst rfl rfl rfl rfl rfl, ⟨?_, ?_, ?_⟩⟩, by simpa [hsk] using hsk3⟩
+    refine ⟨⟨structP_congr hst rfl rfl rfl rfl rfl, ⟨?_, ?_, ?_⟩⟩,
+      by simp only; rw [hsk, hsk3.1]; exact hi.sk,
+      fun h => by simp only at h ⊢; rw [hsk, hsk3.1]; exact hi.skOff (by rw [← hsk3.2, ← hon]; exact h)⟩
     · simp only; rw [hmap, hlen4, hec]; exact hc3
     · simp only; rw [hmap, hws, hws3, hi.inv.counted.ws]; omega
     · intro k' e2 h2
@@ -544,7 +556,7 @@ theorem handleInsert_inv {P : Sketch → Prop} (L : SketchLaws P) {p : Params}
   dsimp only
   by_cases hcap : hasEnoughCapacity p (p.weigh k v) s.ws = true
   · rw [if_pos hcap]
-    have := tail { s with map := AL.put s.map k entry } 0 hsp hi.sk
+    have := tail { s with map := AL.put s.map k entry } 0 hsp ⟨rfl, rfl⟩
       (by simp only; rw [hlen, hi.inv.counted.ec]) (by simp only; omega) rfl
       (by simp [AL.get?_put_self]) hwts2
     simpa using this
@@ -583,7 +595,7 @@ theorem handleInsert_inv {P : Sketch → Prop} (L : SketchLaws P) {p : Params}
             (taken.map (fun n => wOf { s with map := AL.put s.map k entry } n.key)).sum := by
           simpa using hvw
         rw [hvw']
-        refine tail _ _ r1 (by rw [r6.sk]; exact hi.sk) r2 (by simp only at r4; omega) r5
+        refine tail _ _ r1 ⟨r6.sk, r6.skOn⟩ r2 (by simp only at r4; omega) r5
           (by rw [r8]; simp [AL.get?_put_self]) ?_
         intro k' e2 h2
         exact hwts2 k' e2 (r7.sub k' e2 h2)
